@@ -72,38 +72,75 @@ Print Assumptions C17_int32_roundtrip.
 Print Assumptions C17_data_roundtrip.
 
 (* ====================================================================== *)
-(* C17 - property theorems (IPP part).  Model: C17/IppModel.v (the code as it is =
-   [as_coded]; [patched] = after fixes/C17-ipp-*.patch); [supported fx n m] is the class
-   of requests of the property's quantifier that the code with repairs [fx] can take
-   (see IppProofs.v: every supported value tag, >= 1 value, names 1..32767 bytes, strings
-   up to 32767 bytes, int32 integers, any delimiter tags, any document; with [as_coded]:
-   no boolean, no rangeOfInteger, at most 2 integer values); [n] is the fuel. *)
+(* C17 - property theorems (IPP part).  Model: C17/IppModel.v, the code of services/ipp
+   after the fix: commits (missing end tag, boolean, integer 1setOf, rangeOfInteger,
+   uninterpreted value tags, print job with non-string attributes).  [supported n m] is
+   the class of requests of the property's quantifier (IppProofs.v: every value tag -
+   integer, enum, boolean, rangeOfInteger, the seven string tags and every other
+   non-delimiter tag kept as an opaque string -, any number >= 1 of values, names
+   1..32767 bytes, strings up to 32767 bytes, int32 integers, groups with any delimiter
+   tags 0..5 except 3, closed by the end-of-attributes group, any document); [n] bounds the
+   numbers of groups / attributes per group / values per attribute and is the fuel. *)
 From HT Require Import C17.IppModel C17.IppCheck C17.IppProofs.
 
 (* an IPP request built from the supported attribute types decodes to the operation,
    request id, attributes and document data that were encoded - never out of fuel *)
-Theorem C17_ipp_roundtrip : forall fx n m,
-  supported fx n m = true -> dec_msg fx n (enc_request m) = ROk m.
+Theorem C17_ipp_roundtrip : forall n m,
+  supported n m = true -> dec_msg n (enc_request m) = ROk m.
 Proof. exact dec_msg_enc. Qed.
 
-Theorem C17_ipp_roundtrip_as_coded : forall n m,
-  supported as_coded n m = true -> dec_msg as_coded n (enc_request m) = ROk m.
-Proof. exact (dec_msg_enc as_coded). Qed.
+(* ... in particular with the fuel of the correspondence run and with any larger fuel *)
+Theorem C17_ipp_fuel_suffices : forall n m,
+  supported n m = true -> supported (fuel_for (enc_request m)) m = true.
+Proof. exact supported_fuel_for. Qed.
 
-(* full class of the property, for the code after the proposed repairs *)
-Theorem C17_ipp_roundtrip_patched : forall n m,
-  supported patched n m = true -> dec_msg patched n (enc_request m) = ROk m.
-Proof. exact (dec_msg_enc patched). Qed.
+Theorem C17_ipp_roundtrip_any_fuel : forall n0 m n,
+  supported n0 m = true -> (fuel_for (enc_request m) <= n)%nat ->
+  dec_msg n (enc_request m) = ROk m.
+Proof. exact dec_msg_enc_any_fuel. Qed.
+
+(* ippMsg.decode returns for EVERY body: with fuel two more than the number of bytes
+   (or more) the model never runs out of fuel ... *)
+Theorem C17_ipp_decode_terminates : forall raw n,
+  (fuel_for raw <= n)%nat -> dec_msg n raw <> RFuel.
+Proof. exact dec_msg_terminates. Qed.
+
+Theorem C17_ipp_decode_terminates_bound : forall raw,
+  exists n, (n <= length raw + 2)%nat /\ dec_msg n raw <> RFuel.
+Proof. exact dec_msg_terminates_bound. Qed.
+
+(* ... and more fuel never changes a result *)
+Theorem C17_ipp_fuel_monotone : forall raw n n',
+  (n <= n')%nat -> dec_msg n raw <> RFuel -> dec_msg n' raw = dec_msg n raw.
+Proof. exact dec_msg_mono. Qed.
+
+Theorem C17_ipp_handler_returns : forall raw n,
+  (fuel_for raw <= n)%nat -> handler n raw <> HHang.
+Proof. exact handler_returns. Qed.
+
+(* a body without end-of-attributes tag (the empty body, a request cut before its end
+   tag, ...) is refused with the decode error: no reply, no event, for every fuel from
+   the bound upwards *)
+Theorem C17_ipp_no_end_tag_refused : forall raw n,
+  ~ In 3%N raw -> (fuel_for raw <= n)%nat -> dec_msg n raw = RErr.
+Proof. exact no_end_tag_refused. Qed.
+
+Theorem C17_ipp_no_end_tag_no_reply : forall raw n,
+  ~ In 3%N raw -> (fuel_for raw <= n)%nat -> handler n raw = HNoReply.
+Proof. exact no_end_tag_no_reply. Qed.
+
+Theorem C17_ipp_empty_body_refused : forall n, (2 <= n)%nat -> handler n [] = HNoReply.
+Proof. exact empty_body_refused. Qed.
 
 (* the reply echoes version, request id, charset and language (reply_echo_ok: it starts
    with version, status 0, request id and the operation group holding exactly the
    charset/language attributes of the request's operation group, and ends with the end
    tag); the event carries the document and, for a print job, printer URI, user and
-   job name unchanged.  [pj_safe]: outside the print-job finding. *)
-Theorem C17_ipp_request_served : forall fx n m,
-  supported fx n m = true -> pj_safe fx m = true ->
+   job name unchanged *)
+Theorem C17_ipp_request_served : forall n m,
+  supported n m = true ->
   exists body uri user job,
-    handler fx n (enc_request m) = HReply body uri user job (m_data m) /\
+    handler n (enc_request m) = HReply body uri user job (m_data m) /\
     reply_echo_ok m body = true /\
     (m_op m = OP_PRINT_JOB ->
        uri = lookup_str N_URI (first_op_attrs m) /\
@@ -112,102 +149,43 @@ Theorem C17_ipp_request_served : forall fx n m,
 Proof. exact request_served. Qed.
 
 (* setPrintJobResponse, for every attribute list: the fields are the named attributes *)
-Theorem C17_ipp_print_job_fields : forall fx l p p',
-  pj_scan fx l p = Some p' ->
-  pj_uri p' = lookup_from N_URI l (pj_uri p) /\
-  pj_user p' = lookup_from N_USER l (pj_user p) /\
-  pj_job p' = lookup_from N_JOB l (pj_job p).
+Theorem C17_ipp_print_job_fields : forall l p,
+  pj_uri (pj_scan l p) = lookup_from N_URI l (pj_uri p) /\
+  pj_user (pj_scan l p) = lookup_from N_USER l (pj_user p) /\
+  pj_job (pj_scan l p) = lookup_from N_JOB l (pj_job p).
 Proof. exact pj_scan_fields. Qed.
 
-(* the model's observation passes the executable property used on implementation runs *)
-Theorem C17_ipp_model_meets_prop : forall fx n m,
-  supported fx n m = true -> pj_safe fx m = true ->
-  match handler fx n (enc_request m) with
-  | HReply b u us j d => clause_sig m (m_data m) (OReply b u us j (DOLit d)) = 0%N
-  | _ => False
-  end.
+(* the case the model produces for a supported request passes the executable property
+   that [violations] evaluates on implementation runs *)
+Theorem C17_ipp_model_meets_prop : forall id n m,
+  supported n m = true -> case_sig (model_case id m) = 0%N.
 Proof. exact model_meets_clause. Qed.
 
-(* ---- the code as it is, outside [supported as_coded]: refuted forms ---- *)
-Theorem C17_ipp_boolean_refuted :
-  supported patched 20 w_bool = true /\
-  exists m', dec_msg as_coded 20 (enc_request w_bool) = ROk m' /\ m' <> w_bool.
-Proof. exact w_bool_refuted. Qed.
+(* non-vacuity: the requests the code mishandled before the repairs (boolean, boolean
+   last without document, four integer values, rangeOfInteger with a negative bound in a
+   print job's operation group, print job with an integer operation attribute, an
+   octetString attribute) are all in the supported class, and the print job with the
+   integer attribute is served with its job name and document *)
+Example C17_ipp_former_witnesses_supported :
+  supported 20 w_bool = true /\ supported 20 w_bool_last = true /\ supported 20 w_int3 = true /\
+  supported 20 w_range = true /\ supported 20 w_pj_int = true /\ supported 20 w_opaque = true /\
+  exists b u us, handler 20 (enc_request w_pj_int)
+                 = HReply b u us (lookup_str N_JOB (first_op_attrs w_pj_int)) (m_data w_pj_int).
+Proof. exact former_witnesses_supported. Qed.
 
-Theorem C17_ipp_boolean_last_no_return :
-  supported patched 20 w_bool_last = true /\
-  handler as_coded (N.to_nat 3000) (enc_request w_bool_last) = HHang.
-Proof. exact w_bool_last_refuted. Qed.
-
-Theorem C17_ipp_integer_1setof_refuted :
-  supported patched 20 w_int3 = true /\
-  exists m', dec_msg as_coded 20 (enc_request w_int3) = ROk m' /\ m' <> w_int3.
-Proof. exact w_int3_refuted. Qed.
-
-Theorem C17_ipp_range_of_integer_refuted :
-  supported patched 20 w_range = true /\
-  handler as_coded 20 (enc_request w_range) = HPanic /\
-  exists m', dec_msg as_coded 20 (enc_request w_range) = ROk m' /\ m' <> w_range.
-Proof. exact w_range_refuted. Qed.
-
-Theorem C17_ipp_print_job_nonstring_refuted :
-  supported as_coded 20 w_pj_int = true /\ handler as_coded 20 (enc_request w_pj_int) = HPanic.
-Proof. exact w_pj_int_refuted. Qed.
-
-Theorem C17_ipp_unknown_value_tag_refuted :
-  forall n, (2 <= n)%nat -> handler as_coded n w_unknown_raw = HPanic.
-Proof. exact w_unknown_refuted. Qed.
-
-(* no fuel suffices for a body without end-of-attributes tag *)
-Theorem C17_ipp_missing_end_tag_diverges : forall n, handler as_coded n [] = HHang.
-Proof. exact empty_body_diverges. Qed.
-
-(* the repaired code decodes / serves every witness above and refuses the empty body *)
-Theorem C17_ipp_patched_serves_witnesses :
-  dec_msg patched 20 (enc_request w_bool) = ROk w_bool /\
-  dec_msg patched 20 (enc_request w_bool_last) = ROk w_bool_last /\
-  dec_msg patched 20 (enc_request w_int3) = ROk w_int3 /\
-  dec_msg patched 20 (enc_request w_range) = ROk w_range /\
-  (exists b u us j d, handler patched 20 (enc_request w_pj_int) = HReply b u us j d) /\
-  (exists b u us j d, handler patched 20 w_unknown_raw = HReply b u us j d).
-Proof. exact witnesses_patched. Qed.
-
-Theorem C17_ipp_patched_refuses_empty_body :
-  forall n, (1 <= n)%nat -> handler patched n [] = HNoReply.
-Proof. exact empty_body_patched. Qed.
-
-(* non-vacuity: a print job with string, integer (1 and 2 values), enum and multi-valued
-   keyword attributes is in the class the unchanged code serves *)
-Example C17_ipp_supported_nonvacuous :
-  supported as_coded 20 ex_print_job = true /\ pj_safe as_coded ex_print_job = true.
+Example C17_ipp_supported_nonvacuous : supported 20 ex_print_job = true.
 Proof. exact ex_print_job_supported. Qed.
 
 Print Assumptions C17_ipp_roundtrip.
-Print Assumptions C17_ipp_roundtrip_as_coded.
-Print Assumptions C17_ipp_roundtrip_patched.
+Print Assumptions C17_ipp_fuel_suffices.
+Print Assumptions C17_ipp_roundtrip_any_fuel.
+Print Assumptions C17_ipp_decode_terminates.
+Print Assumptions C17_ipp_decode_terminates_bound.
+Print Assumptions C17_ipp_fuel_monotone.
+Print Assumptions C17_ipp_handler_returns.
+Print Assumptions C17_ipp_no_end_tag_refused.
+Print Assumptions C17_ipp_no_end_tag_no_reply.
+Print Assumptions C17_ipp_empty_body_refused.
 Print Assumptions C17_ipp_request_served.
 Print Assumptions C17_ipp_print_job_fields.
 Print Assumptions C17_ipp_model_meets_prop.
-Print Assumptions C17_ipp_boolean_refuted.
-Print Assumptions C17_ipp_boolean_last_no_return.
-Print Assumptions C17_ipp_integer_1setof_refuted.
-Print Assumptions C17_ipp_range_of_integer_refuted.
-Print Assumptions C17_ipp_print_job_nonstring_refuted.
-Print Assumptions C17_ipp_unknown_value_tag_refuted.
-Print Assumptions C17_ipp_missing_end_tag_diverges.
-Print Assumptions C17_ipp_patched_serves_witnesses.
-Print Assumptions C17_ipp_patched_refuses_empty_body.
-
-(* the fuel the correspondence run hands the model (two more than the number of request
-   bytes) suffices for every supported request *)
-Theorem C17_ipp_fuel_suffices : forall fx n m,
-  supported fx n m = true -> supported fx (fuel_for (enc_request m)) m = true.
-Proof. exact supported_fuel_for. Qed.
-
-Theorem C17_ipp_roundtrip_with_run_fuel : forall fx n m,
-  supported fx n m = true ->
-  dec_msg fx (fuel_for (enc_request m)) (enc_request m) = ROk m.
-Proof. exact dec_msg_enc_fuel_for. Qed.
-
-Print Assumptions C17_ipp_fuel_suffices.
-Print Assumptions C17_ipp_roundtrip_with_run_fuel.
